@@ -110,7 +110,7 @@ Proof.
     destruct Hmode as [->|[->| ->]]; cbn [Z.of_N g_eq pv_eq gint Z.eqb Pos.eqb N.eqb bind].
     + (* GET: the NOMINAL test *)
       unfold gstr at 1. cbn [g_slice]. rewrite Hascii. cbn [slice_of bind g_eq pv_eq gstr gint gnone].
-      change (Z.neg 7) with (-7). rewrite nominal_test.
+      change (Z.neg 7) with (-7). rewrite ?(beq_sym (bytes_of_string "NOMINAL")). rewrite nominal_test.
       destruct (String.eqb (last_n 7 ident) "NOMINAL"); [reflexivity|]. apply catch_tab.
     + apply catch_tab.
     + apply catch_tab.
